@@ -53,6 +53,10 @@ pub struct Finding {
 }
 
 pub fn load_findings() -> Vec<Finding> {
+    if std::env::var("VCHECK_IGNORE_KNOWN").is_ok() {
+        // (used once, to obtain a shrunk replay of an open finding)
+        return Vec::new();
+    }
     let p = format!("{}/known_findings.json", VERIF);
     match std::fs::read_to_string(&p) {
         Ok(s) => serde_json::from_str::<Value>(&s).ok().and_then(|v| v.get("findings").cloned()).and_then(|f| serde_json::from_value(f).ok()).unwrap_or_default(),
@@ -989,6 +993,29 @@ pub fn parent(id: &str, tier: &str) -> i32 {
     }
     println!("{} {}: {} cases, {} distinct non-trivial, {:.1}s: held", id, tier, evaluations, nontrivial, wall);
     0
+}
+
+/// run sampled generated cases twice and compare the materialised decisions, step counts and traces
+pub fn determinism_selftest(n: usize) -> (usize, usize) {
+    let check = e1_check("C01").unwrap();
+    let mut runner = TestRunner::new_with_rng(Config { failure_persistence: None, ..Config::default() }, TestRng::from_seed(RngAlgorithm::ChaCha, &seed_bytes(7, 7, "determinism")));
+    let strat = case_strategy(&check.profile);
+    let mut same = 0;
+    for _ in 0..n {
+        let case = strat.new_tree(&mut runner).unwrap().current();
+        let a = exec::run_case(&case, true);
+        let b = exec::run_case(&case, true);
+        // addresses differ between runs; compare the address-free part of every trace line
+        let strip = |t: &Vec<String>| -> Vec<String> { t.iter().map(|l| l.split_whitespace().filter(|w| !w.contains('@') && !w.starts_with("a=") && !w.starts_with("b=") && !w.starts_with("->") && !(w.len() >= 4 && w.chars().all(|c| c.is_ascii_hexdigit()))).collect::<Vec<_>>().join(" ")).collect() };
+        if a.decisions == b.decisions && a.stats.steps == b.stats.steps && a.fail.is_some() == b.fail.is_some() && strip(&a.trace) == strip(&b.trace) {
+            same += 1;
+        } else {
+            let (sa, sb) = (strip(&a.trace), strip(&b.trace));
+            let first = sa.iter().zip(sb.iter()).position(|(x, y)| x != y);
+            eprintln!("non-deterministic case: decisions equal: {}, steps {} vs {}, first differing trace line {:?}: {:?} vs {:?}", a.decisions == b.decisions, a.stats.steps, b.stats.steps, first, first.map(|i| &sa[i]), first.map(|i| &sb[i]));
+        }
+    }
+    (n, same)
 }
 
 pub fn replay(path: &str) -> i32 {
